@@ -15,17 +15,18 @@ RUNS = {"quick": 1500, "thorough": 30000}
 CHUNK = {"quick": 20, "thorough": 100}
 PROBES = ["read_after_modification", "stale_cache_opportunity", "nested_modification_via_tree", "variant_block", "default_variant",
           "data_transform_list", "execute_list", "beacon_gate_list", "repeated_option", "repeated_block", "kwargs_style",
-          "calls_style", "reparse", "empty_block", "pair_statement", "same_text_parsed_twice"]
+          "calls_style", "reparse", "empty_block", "pair_statement", "same_text_parsed_twice", "escape_at_edge_of_literal",
+          "option_value_as_bytes"]
 RULE = ("seeded histories (2-24 ops) on one C2Profile: 'add' ops append a global option or a fully built block (all 11 "
         "block kinds, options by alias/keyword table, header/parameter/strrep pairs, data-transform lists in the six "
         "non-variant list paths, execute and BeaconGate lists, process-inject transform-x86) built either through kwargs "
         "constructors or through incremental calls, 'read' ops call "
         "as_dict()/properties/as_text()/str() or re-parse the text; after every read the dictionary must equal the model, "
         "from_text(as_text()) must have an equal tree, text and dictionary, and both builder styles must give equal trees; "
-        "15% of plans are parsed from independently printed text incl. variants. non-trivial = a read follows a "
+        "25% of plans are parsed from independently printed text incl. variants and escape sequences at the edges of literals. non-trivial = a read follows a "
         "modification that follows a read (cache invalidation exercised) or a list/variant path is present; distinct = digest")
 ASSUMPTIONS = [
-    "option values and pair strings avoid double quote and backslash (string escaping is C12, not claimed); transform/execute arguments are arbitrary bytes (all 256 values)",
+    "option values and pair strings handed to the BUILDER avoid double quote and backslash (string escaping is C12, not claimed); in the parsed population they are source text with escape sequences, expected back as written; transform/execute arguments are arbitrary bytes (all 256 values)",
     "data-transform lists only in non-variant blocks; stage.transform-x86/x64 and process-inject.transform-x64 are not generated (their listing is not pinned by the property)",
     "module_x64 (grammar alias clash, a C10 matter) and the '#'-prefixed dns_resolver pseudo option are not generated",
     "values are compared as plain strings (lark Tokens are str)",
@@ -117,12 +118,13 @@ def _gen_block(rng, alias=None):
     alias = alias or rng.choice(sorted(BLOCKS))
     kw, cls, opts, stmts = BLOCKS[alias]
     items = []
+    # a 4th element "b" = the builder is handed the value as bytes instead of str (same text for this alphabet)
     for _ in range(rng.choice([0, 1, 2, 3, 5])):
         a, _k = rng.choice(opts)
-        items.append(["set", a, _val(rng)])
+        items.append(["set", a, _val(rng)] + (["b"] if rng.random() < 0.25 else []))
     for _ in range(rng.choice([0, 0, 1, 2]) if stmts else 0):
         a, _k = rng.choice(stmts)
-        items.append(["set", a, _val(rng)])
+        items.append(["set", a, _val(rng)] + (["b"] if rng.random() < 0.5 else []))
     if alias in ("http_get", "http_post"):
         if rng.random() < 0.8:
             inner = _gen_pairs(rng)
@@ -189,7 +191,7 @@ def generate(rng, tier, index):
             ops.append(["read", rng.choice(["as_dict", "as_dict", "properties", "as_text", "str", "reparse"])])
     ops.append(["read", "as_dict"])
     plan = {"world": "H", "ops": ops, "style": rng.choice(["kwargs", "calls"])}
-    if rng.random() < 0.15:
+    if rng.random() < 0.25:
         # parsed-from-text population with variants
         items = []
         for _ in range(rng.randint(1, 5)):
@@ -200,8 +202,40 @@ def generate(rng, tier, index):
                 if b[1] in VARIANT_OK and rng.random() < 0.6:
                     b = ["block", b[1], [it for it in _strip_dt(b[2])], rng.choice(["default", _val(rng, 1, 6).replace(" ", "_") or "v"])]
                 items.append(b)
+        if rng.random() < 0.6:
+            items = [_escapeify(rng, it) for it in items]
         plan = {"world": "H", "parsed": items}
     return plan
+
+
+_ESC = ['\\"', '\\\\', "\\'", "\\x41", "\\n", "\\t", "\\u0041"]
+
+
+def _escapeify(rng, it):
+    """Parsed population only: option values and pair strings as SOURCE text with escape sequences (in particular at the
+    very start and end of the literal). The dictionary reports such strings as written, so the expectation is the
+    same source text; no escaping codec (C12) is involved on either side."""
+    def e(v):
+        r = rng.random()
+        if r < 0.35:
+            return v
+        if r < 0.55:
+            return rng.choice(_ESC) + v
+        if r < 0.75:
+            return v + rng.choice(_ESC)
+        if r < 0.9:
+            return rng.choice(_ESC) + v + rng.choice(_ESC)
+        k = rng.randint(0, len(v))
+        return v[:k] + rng.choice(_ESC) + v[k:]
+    if it[0] == "opt":
+        return ["opt", it[1], e(it[2])]
+    if it[0] == "set":
+        return ["set", it[1], e(it[2])] + it[3:]
+    if it[0] == "pair":
+        return ["pair", it[1], e(it[2]), e(it[3])]
+    if it[0] == "block":
+        return ["block", it[1], [_escapeify(rng, x) for x in it[2]]] + it[3:]
+    return it
 
 
 def _strip_dt(items):
@@ -357,7 +391,7 @@ def build_block(cp, alias, items, style):
             for it in its:
                 k = it[0]
                 if k == "set":
-                    kwargs[it[1]] = it[2]
+                    kwargs[it[1]] = it[2].encode() if len(it) > 3 else it[2]
                 elif k == "block":
                     kwargs[it[1]] = make(cp.HttpOptionsBlock, it[2], style, balias)
                 elif k == "dt":
@@ -367,7 +401,7 @@ def build_block(cp, alias, items, style):
         for it in its:
             k = it[0]
             if k == "set":
-                b.set_option(it[1], it[2])
+                b.set_option(it[1], it[2].encode() if len(it) > 3 else it[2])
             elif k == "pair":
                 b._pair(it[1], [(it[2], it[3])])
             elif k == "block":
@@ -459,6 +493,8 @@ def execute(plan: dict) -> Result:
             res.nontrivial = True
         if any(len(it) > 3 and it[3] == "default" for it in items):
             res.probes["default_variant"] += 1
+        if '\\' in text:
+            res.probes["escape_at_edge_of_literal"] += 1
         try:
             prof = cp.C2Profile.from_text(text)
             got = _plain(prof.as_dict())
@@ -520,6 +556,8 @@ def execute(plan: dict) -> Result:
                         res.probes["repeated_block"] += 1
                     if not it[2]:
                         res.probes["empty_block"] += 1
+                    if '"b"]' in __import__("json").dumps(it[2]):
+                        res.probes["option_value_as_bytes"] += 1
                     mit = ["block", it[1], list(it[2])]
                     items.append(mit)
                     attached.append((mit, b, b2))
